@@ -990,6 +990,7 @@ func callBuiltin(caller *frame, callpos token.Pos, fn *ssa.Builtin, args []value
 	case "delete": // delete(map[K]value, K)
 		switch m := args[0].(type) {
 		case *Map:
+			raceMap(caller, m, nil, true)
 			m.delete(args[1])
 		default:
 			panic(fmt.Sprintf("illegal map type: %T", m))
